@@ -350,7 +350,8 @@ Definition fetch_scan (cluster : bool) (fps : list N) (from_ms to_ms : Z) : scan
   {| sc_table := if cluster then "time_series_dist" else "time_series"; sc_alias := ""; sc_tsn := ["timestamp_ns"];
      sc_conj := [In (Id "fingerprint") (map (fun fp => Raw (string_of_N fp)) fps);
                  Ge (Id "date") (DateV (from_day (from_ms * 1000000)));
-                 Le (Id "date") (DateV (to_ms / 86400000))] |}.
+                 Le (Id "date") (DateV (to_ms / 86400000));
+                 In (Id "type") [IntV 2; IntV 0]] |}.
 
 Lemma raws_noselect fps : flat_map escans (map (fun fp : N => Raw (string_of_N fp)) fps) = [].
 Proof. induction fps as [|a r IH]; [reflexivity | cbn [map flat_map escans app]; exact IH]. Qed.
@@ -365,7 +366,7 @@ Proof.
 Qed.
 
 Lemma fetch_scan_bounds cluster fps from_ms to_ms :
-  bounds (fetch_scan cluster fps from_ms to_ms) = [DLo (from_day (from_ms * 1000000)); DHi (to_ms / 86400000)].
+  bounds (fetch_scan cluster fps from_ms to_ms) = [DLo (from_day (from_ms * 1000000)); DHi (to_ms / 86400000); Ty [2%Z; 0%Z]].
 Proof. unfold bounds, fetch_scan. cbn [sc_conj flat_map]. destruct cluster; reflexivity. Qed.
 
 Lemma day_of_ms ms : day_of_ns (ms * 1000000) = (ms / 86400000)%Z.
@@ -385,23 +386,28 @@ Proof.
   unfold sc in Hb, Hb'. rewrite fetch_scan_bounds in Hb, Hb'. fold sc in Hb, Hb'.
   constructor.
   - eexists. apply Hb'. left. reflexivity.
-  - intros d H. apply Hb in H. destruct H as [H|[H|[]]]; [|discriminate H]. injection H as <-.
+  - intros d H. apply Hb in H. destruct H as [H|[H|[H|[]]]]; [|discriminate H|discriminate H]. injection H as <-.
     cbn [fetch_win w_from]. transitivity (day_of_ns (from_ms * 1000000)); [apply from_day_close|].
     unfold day_of_ns, ns_per_day. apply Z.div_le_mono; lia.
-  - intros d H. apply Hb in H. destruct H as [H|[H|[]]]; [discriminate H|]. injection H as <-.
+  - intros d H. apply Hb in H. destruct H as [H|[H|[H|[]]]]; [discriminate H| |discriminate H]. injection H as <-.
     cbn [fetch_win w_to]. replace (to_ms * 1000000 + 1 - 1)%Z with (to_ms * 1000000)%Z by lia. rewrite day_of_ms. lia.
-  - intros lo H. apply Hb in H. destruct H as [H|[H|[]]]; discriminate H.
-  - intros hi H. apply Hb in H. destruct H as [H|[H|[]]]; discriminate H.
+  - intros lo H. apply Hb in H. destruct H as [H|[H|[H|[]]]]; discriminate H.
+  - intros hi H. apply Hb in H. destruct H as [H|[H|[H|[]]]]; discriminate H.
 Qed.
 
-(* ... and has no type conjunct: label sets written by the log API under the same fingerprint are read too *)
-Theorem labels_fetch_untyped cluster fps from_ms to_ms :
-  ~ Forall (scan_bounded table_info (fetch_win from_ms to_ms)) (scans (labels_fetch cluster fps from_ms to_ms)).
+(* ... and carries type IN (2,0) like every other read of the metric API (repair of prom-labels-fetch-untyped; before it the
+   label sets written by the log API under the same fingerprint were read too): the read is bounded *)
+Theorem labels_fetch_bounded cluster fps from_ms to_ms :
+  Forall (scan_bounded table_info (fetch_win from_ms to_ms)) (scans (labels_fetch cluster fps from_ms to_ms)).
 Proof.
-  rewrite labels_fetch_scans. intros H. inversion H as [|x l Hs _]; subst. destruct Hs as [_ Ht].
-  assert (Hty : ti_typed (table_info (sc_table (fetch_scan cluster fps from_ms to_ms))) = true) by (destruct cluster; reflexivity).
-  destruct (Ht Hty ltac:(cbn; discriminate)) as [[l [e [He Hl]]] _ _].
-  assert (Hin : List.In (Ty l) (bounds (fetch_scan cluster fps from_ms to_ms))).
-  { unfold bounds. apply in_flat_map. exists e. split; assumption. }
-  rewrite fetch_scan_bounds in Hin. destruct Hin as [Hx|[Hx|[]]]; discriminate Hx.
+  rewrite labels_fetch_scans. constructor; [|constructor]. apply scan_bounded_b_iff.
+  unfold scan_bounded_b, scan_failures. rewrite fetch_scan_bounds.
+  assert (Hi : table_info (sc_table (fetch_scan cluster fps from_ms to_ms)) = index_typed) by (destruct cluster; reflexivity).
+  rewrite Hi. cbn [ti_class ti_typed index_typed]. unfold date_failures, ts_lower_failures, ts_upper_failures, type_failures.
+  cbn [d_los d_his ts_los ts_his tys flat_map app zmax_list zmin_list fold_left andb fetch_win w_type w_from w_to].
+  replace (to_ms * 1000000 + 1 - 1)%Z with (to_ms * 1000000)%Z by lia. rewrite day_of_ms.
+  replace (from_day (from_ms * 1000000) >? day_of_ns (from_ms * 1000000 + 1))%Z with false.
+  - replace (to_ms / 86400000 <? to_ms / 86400000)%Z with false by (symmetry; apply Z.ltb_irrefl). reflexivity.
+  - symmetry. rewrite Z.gtb_ltb. apply Z.ltb_ge. transitivity (day_of_ns (from_ms * 1000000)); [apply from_day_close|].
+    unfold day_of_ns, ns_per_day. apply Z.div_le_mono; lia.
 Qed.
